@@ -244,6 +244,12 @@ impl C15 {
                 if let Some(pn) = o.panicked {
                     return Err(format!("PANIC depth-4 search: {}", pn));
                 }
+                // `go depth 0` is accepted by the interface too
+                let mut t0 = srch::new_table();
+                let o = srch::run_search(&g, &mut t0, Some(0), 20_000);
+                if let Some(pn) = o.panicked {
+                    return Err(format!("PANIC depth-0 search: {}", pn));
+                }
                 let o = srch::run_search(&g, &mut t, None, infinite_ms.clamp(200, 1500) as u64);
                 if let Some(ref pn) = o.panicked {
                     return Err(format!("PANIC unlimited search (deepest {:?}): {}", o.depths().last(), pn));
@@ -280,8 +286,12 @@ impl C15 {
                 }
             }
             s.send(&format!("position fen {} moves {}", start.fen6(), text));
+            s.send("go depth 0");
+            let a0 = s.read_until(|l| l.starts_with("bestmove"), 20_000);
+            s.send("wait");
+            s.send(&format!("position fen {} moves {}", start.fen6(), text));
             s.send("go depth 3");
-            let a = s.read_until(|l| l.starts_with("bestmove"), 20_000);
+            let a = if a0.is_some() { s.read_until(|l| l.starts_with("bestmove"), 20_000) } else { None };
             s.send("wait");
             s.send(&format!("position fen {} moves {}", start.fen6(), text));
             s.send("go infinite");
@@ -377,7 +387,7 @@ impl Prop for C15 {
     }
 
     fn rule(&self) -> String {
-        "All cases run on a CHECKED build of the same sources (release optimisation, debug assertions on, overflow checks off) of both the in-process harness and the binary, so a violated unsafe precondition, an arrayvec capacity assertion, a Position assertion or an index error is a panic/abort instead of silent corruption. Cases: (a) high-mobility boards: generated heavy pieces of both colours, then up to 300 greedy steps that raise the MODEL's pseudo-legal move count (the engine runs only on the result): import, both move lists, FEN/display, depth-2 search, and for counts >= 230 the same through the checked binary; (b) games of 300-398 quiet plies from small positions, followed by a depth-4 and an unlimited search in-process or `go depth 3` + `go infinite` through the checked binary, where a 399th ply must be refused by `position`; (c) self-play `rustybait auto 2` from drawn endings (hook: VERIF_AUTO_FEN) until the process ends by itself; (d) sane constructed positions with promoted pieces searched to depth 3-4; (e) 'wild' boards: anything the FEN reader accepts - all piece kinds anywhere including pawns on the first and eighth rank, arbitrary castling-rights bits and en-passant file - imported, listed, displayed and searched to depth 2. A shard that aborts is the violation (in-flight case = replay). evaluations = exercised positions / games / runs. Non-trivial: model move count >= 200, or game length >= 380, or self-play that reached the length guard, or a wild board with pawns on rank 1/8 or rights without their rook; distinct by position / game.".into()
+        "All cases run on a CHECKED build of the same sources (release optimisation, debug assertions on, overflow checks off) of both the in-process harness and the binary, so a violated unsafe precondition, an arrayvec capacity assertion, a Position assertion or an index error is a panic/abort instead of silent corruption. Cases: (a) high-mobility boards: generated heavy pieces of both colours, then up to 300 greedy steps that raise the MODEL's pseudo-legal move count (the engine runs only on the result): import, both move lists, FEN/display, depth-2 search, and for counts >= 230 the same through the checked binary; (b) games of 300-398 quiet plies from small positions, followed by depth-4, depth-0 and unlimited searches in-process or `go depth 0`, `go depth 3` and `go infinite` through the checked binary, where a 399th ply must be refused by `position`; (c) self-play `rustybait auto 2` from drawn endings (hook: VERIF_AUTO_FEN) until the process ends by itself; (d) sane constructed positions with promoted pieces searched to depth 3-4; (e) 'wild' boards: anything the FEN reader accepts - all piece kinds anywhere including pawns on the first and eighth rank, arbitrary castling-rights bits and en-passant file - imported, listed, displayed and searched to depth 2. A shard that aborts is the violation (in-flight case = replay). evaluations = exercised positions / games / runs. Non-trivial: model move count >= 200, or game length >= 380, or self-play that reached the length guard, or a wild board with pawns on rank 1/8 or rights without their rook; distinct by position / game.".into()
     }
 
     fn assumptions(&self) -> Vec<String> {
